@@ -409,6 +409,10 @@ func NewWithKeywords(kw *keywords.Keywords) (*Tokenizer, error) {
 //	tokens, _ := tkz.Tokenize([]byte(sql))
 //	// Correctly tokenizes Unicode identifiers and string literals
 func (t *Tokenizer) Tokenize(input []byte) ([]models.TokenWithSpan, error) {
+	// Reset state first: a call that is refused below must not leave the comments
+	// (and the input) of the previous call on the instance
+	t.Reset()
+
 	// Record start time for metrics
 	startTime := time.Now()
 
@@ -419,8 +423,6 @@ func (t *Tokenizer) Tokenize(input []byte) ([]models.TokenWithSpan, error) {
 		return nil, err
 	}
 
-	// Reset state
-	t.Reset()
 	t.input = input
 
 	// Pre-allocate line starts slice - reuse if possible
@@ -542,6 +544,10 @@ func (t *Tokenizer) Tokenize(input []byte) ([]models.TokenWithSpan, error) {
 //	    // Handle timeout
 //	}
 func (t *Tokenizer) TokenizeContext(ctx context.Context, input []byte) ([]models.TokenWithSpan, error) {
+	// Reset state first: a call that is refused below must not leave the comments
+	// (and the input) of the previous call on the instance
+	t.Reset()
+
 	// Check context before starting
 	if err := ctx.Err(); err != nil {
 		return nil, err
@@ -557,8 +563,6 @@ func (t *Tokenizer) TokenizeContext(ctx context.Context, input []byte) ([]models
 		return nil, err
 	}
 
-	// Reset state
-	t.Reset()
 	t.input = input
 
 	// Pre-allocate line starts slice - reuse if possible
